@@ -427,6 +427,9 @@ class Evaluator:
             return 0
         return cells[name]
 
+    def t_DynLoad(self, t, fr):
+        return self.t_Load(t, fr)
+
     def t_TxnField(self, t, fr):
         f = t[1]
         if f == "NumAppArgs":
